@@ -316,6 +316,18 @@ func (this *partition) removeNode(nodeId uint64) {
 	}
 }
 
+func (this *partition) setNodes(nodeIds []uint64) {
+	wasOnNode := this.isOnNode(this.raftTransport.NodeId())
+	this.meta.NodeIds = nodeIds
+	isOnNode := this.isOnNode(this.raftTransport.NodeId())
+
+	if !wasOnNode && isOnNode {
+		this.loadRaft(nil)
+	} else if wasOnNode && !isOnNode {
+		this.unloadRaft()
+	}
+}
+
 func (this *partition) proposeAndWaitForCommit(ctx context.Context, proposal *pb.PartitionChange) (interface{}, error) {
 	ctx, cancelCtx := context.WithTimeout(ctx, proposalTimeout)
 	defer cancelCtx()
